@@ -56,7 +56,7 @@ fn local_cell_program(rng: &mut Rng) -> String {
         )
     } else {
         format!(
-            "{}let lz = import! std.lazy.prim\n(let l = lz.lazy (\\u -> {}) in (let a = lz.force l in (let j = {} in (let b = lz.force l in {{ a = a, b = b, j = j }}))))\n",
+            "{}let lz = import! std.lazy.prim\n(let l = lz.lazy (\\u -> {}) in (let a = (\\x -> 0) (lz.force l) in (let j = {} in (let b = lz.force l in {{ a = a, b = b, j = j }}))))\n",
             gen::PREAMBLE, e1, junk
         )
     }
@@ -79,8 +79,8 @@ impl Engine for C05 {
                 "the reference execution uses the natural threshold only; both executions are real schedules of the real collector",
             ],
             shrink: vec!["/ops"],
-            quick: (700, 100),
-            thorough: (40000, 1100),
+            quick: (12000, 150),
+            thorough: (600000, 1100),
         }
     }
 
@@ -196,7 +196,7 @@ impl Engine for C05 {
                 }
             } else if nthreads > 0 && rng.chance(1, 3) {
                 ops.push(json!({ "op": "dropthread", "t": 1 + rng.below(nthreads) }));
-            } else if rng.chance(1, 2) {
+            } else if rng.chance(1, 4) {
                 let ty = {
                     let mut g = Gen::new(rng, 4);
                     g.data_ty(2)
@@ -324,6 +324,9 @@ fn execute(w: &Value, phase: &str) -> Result<Exec, Violation> {
         })
         .unwrap_or_default();
     let mut log = Vec::new();
+    if let Err(e) = vm.load_script("simtypes", gen::TYPES_MODULE) {
+        return Err(Violation::new("harness", format!("simtypes: {}", e)));
+    }
     if !cells.is_empty() {
         let inits: Vec<(String, String)> = cells.iter().map(|c| (c.0.clone(), c.1.clone())).collect();
         let src = cell_module(&inits);
